@@ -2483,7 +2483,12 @@ where
                 let fragments = v.fragments();
                 if number_of_frames as usize == fragments.len() {
                     // return a single fragment
-                    fragments[frame as usize].to_vec()
+                    fragments
+                        .get(frame as usize)
+                        .context(FrameOutOfRangeSnafu {
+                            frame_number: frame,
+                        })?
+                        .to_vec()
                 } else {
                     // not supported, return an error
                     InvalidPixelDataSnafu.fail()?
